@@ -3,6 +3,22 @@
 // Contracts for /verif (build tag "verif"): //@ comment blocks and pure ghost functions only.
 package leb128
 
+import (
+	"bytes"
+	"io"
+)
+
+// The byte source every decoder in this repository passes in is a *bytes.Reader: rd* expose its
+// representation (data s, read index i) so that the Decode* contracts can say what is consumed.
+func asRd(r io.ByteReader) *bytes.Reader { br, _ := r.(*bytes.Reader); return br }
+
+func rdOK(r io.ByteReader) bool {
+	br := asRd(r)
+	return br != nil && 0 <= verif_field_int(br, "i") && verif_field_int(br, "i") <= verif_field_len(br, "s")
+}
+func rdLen(r io.ByteReader) int { return verif_field_len(asRd(r), "s") }
+func rdPos(r io.ByteReader) int { return verif_field_int(asRd(r), "i") }
+
 // specU is the LEB128 meaning of the first n (<= 10) bytes of buf, modulo 2^64.
 func specU(buf []byte, n int) uint64 {
 	v := uint64(0)
@@ -31,6 +47,59 @@ func wellFormed(buf []byte, n int) bool {
 }
 
 //@ prop C03
+
+// Standard library, assumed: (*bytes.Reader).ReadByte delivers the next byte and advances by one, or
+// fails and stays.
+//@ iface (r io.ByteReader) ReadByte() (byte, error)
+//@   requires rdOK(r)
+//@   ensures[reader] rdOK(r) && rdLen(r) == old(rdLen(r))
+//@   ensures[step] (r1 == nil ==> rdPos(r) == old(rdPos(r)) + 1) && (r1 != nil ==> rdPos(r) == old(rdPos(r)))
+//@   modifies obj(asRd(r))
+
+//@ func DecodeUint32(r io.ByteReader) (ret uint32, bytesRead uint64, err error)
+//@   requires rdOK(r)
+//@   ensures[reader-ok] rdOK(r)
+//@   ensures[same-input] rdLen(r) == old(rdLen(r))
+//@   ensures[forward] rdPos(r) >= old(rdPos(r)) && rdPos(r) <= old(rdPos(r)) + 5
+//@   ensures[count] err == nil ==> bytesRead >= 1 && bytesRead <= 5 && rdPos(r) == old(rdPos(r)) + int(bytesRead)
+//@   ensures[error-is-clean] err != nil ==> ret == 0 && bytesRead == 0
+//@   modifies obj(asRd(r))
+
+//@ func DecodeInt33AsInt64(r io.ByteReader) (ret int64, bytesRead uint64, err error)
+//@   requires rdOK(r)
+//@   ensures[reader-ok] rdOK(r)
+//@   ensures[same-input] rdLen(r) == old(rdLen(r))
+//@   ensures[forward] rdPos(r) >= old(rdPos(r)) && rdPos(r) <= old(rdPos(r)) + 5
+//@   ensures[count] err == nil ==> bytesRead >= 1 && bytesRead <= 5 && rdPos(r) == old(rdPos(r)) + int(bytesRead)
+//@   ensures[error-is-clean] err != nil ==> ret == 0 && bytesRead == 0
+//@   modifies obj(asRd(r))
+//@   loop 0 ()
+//@     unroll 6
+
+// The signed decoders read until a byte without the continuation bit (or the end of input) and only
+// then reject over-long encodings, so the loop has no syntactic bound; their effect on the reader is
+// ASSUMED (the closure they pass on only calls r.ReadByte), their value semantics is proved on the
+// Load* twins which share the loop.
+//@ func DecodeInt32(r io.ByteReader) (ret int32, bytesRead uint64, err error)
+//@   trusted
+//@   requires rdOK(r)
+//@   ensures[reader-ok] rdOK(r)
+//@   ensures[same-input] rdLen(r) == old(rdLen(r))
+//@   ensures[forward] rdPos(r) >= old(rdPos(r))
+//@   ensures[count] err == nil ==> bytesRead >= 1 && bytesRead <= 5 && rdPos(r) == old(rdPos(r)) + int(bytesRead)
+//@   ensures[error-is-clean] err != nil ==> ret == 0 && bytesRead == 0
+//@   modifies obj(asRd(r))
+
+//@ func DecodeInt64(r io.ByteReader) (ret int64, bytesRead uint64, err error)
+//@   trusted
+//@   requires rdOK(r)
+//@   ensures[reader-ok] rdOK(r)
+//@   ensures[same-input] rdLen(r) == old(rdLen(r))
+//@   ensures[forward] rdPos(r) >= old(rdPos(r))
+//@   ensures[count] err == nil ==> bytesRead >= 1 && bytesRead <= 10 && rdPos(r) == old(rdPos(r)) + int(bytesRead)
+//@   ensures[error-is-clean] err != nil ==> ret == 0 && bytesRead == 0
+//@   modifies obj(asRd(r))
+
 //@ func LoadUint32(buf []byte) (ret uint32, bytesRead uint64, err error)
 //@   ensures[consumes-one-group] err == nil ==> bytesRead >= 1 && bytesRead <= 5 && wellFormed(buf, int(bytesRead))
 //@   ensures[value] err == nil ==> uint64(ret) == specU(buf, int(bytesRead))
